@@ -46,6 +46,7 @@ Gen(T) ==
 \* default literals (all valid for their type, some only through single-value-to-list coercion)
 IsIntList(T, d) == IF d = 0 THEN T.k = "named" /\ T.name = "Int" ELSE T.k = "list" /\ IsIntList(Elem(T), d - 1)
 Defaults(T) == {<<>>}
+  \cup (IF T.k = "list" THEN {<<VList(<<>>)>>} ELSE {})      \* the empty list literal is a value, not null
   \cup (IF IsIntList(T, 0) THEN {<<VInt(9)>>} ELSE {})
   \cup (IF IsIntList(T, 1) THEN {<<VList(<<VInt(9)>>)>>, <<VInt(9)>>} ELSE {})
   \cup (IF IsIntList(T, 2) THEN {<<VList(<<VList(<<VInt(9)>>)>>)>>, <<VList(<<VInt(8), VInt(9)>>)>>, <<VInt(9)>>} ELSE {})
